@@ -1,38 +1,153 @@
 /-
 C09 — Expressions parse with the documented precedence and associativity.
 PROPERTY THEOREMS ONLY (helper lemmas live in `Rooc/Proofs`).
+
+Vocabulary: `parseToks : List Tok → Except PErr PExp` is the executable model of the PEG rules reachable
+from `exp` + pest's Pratt loop over the REGENERATED operator table (`Rooc/Syntax/Parse.lean`, diffed
+against the real parser on every run); `Doc.*` is the documented table (`Rooc/Syntax/Doc.lean`);
+`Tk t ts items` is the rendering relation "the token list `ts` writes down the tree `t`" with any operator
+spelling, any SUPERSET of the needed parentheses, implicit products and calls (`Rooc/Proofs/Group.lean`);
+`render alias t` is the minimal-parenthesis printer built from the documented rules only.
 -/
 import Lean
-import Rooc.Syntax.Parse
+import Rooc.Proofs.Render
 namespace Rooc.Props.C09
-open Rooc Rooc.Syntax
-
-/-- The documented operator table (properties.jsonl C09): level 1 = loosest. -/
-def docLevel : BinOp → Nat
-  | .implies | .iff => 1
-  | .or => 2
-  | .xor => 3
-  | .and => 4
-  | .add | .sub => 5
-  | .mul | .div => 6
-def docRightAssoc : BinOp → Bool
-  | .implies => true
-  | _ => false
-/-- the pest rule that carries each operator -/
-def docRule : BinOp → String
-  | .add => "add" | .sub => "sub" | .mul => "mul" | .div => "div" | .and => "and_op" | .or => "or_op"
-  | .xor => "xor_op" | .implies => "implies_op" | .iff => "iff_op"
-def docUnRule : UnOp → String
-  | .neg => "neg" | .not => "not_op"
+open Rooc Rooc.Syntax Rooc.Syntax.Doc Rooc.Syntax.Proofs
 
 def allBinOps : List BinOp := [.add, .sub, .mul, .div, .and, .or, .xor, .implies, .iff]
 
 /-- The REGENERATED Pratt table is the documented one: binding power `10 + 10·level`, `implies`
-right-associative, everything else left-associative, both prefix operators above every infix. -/
+right-associative, every other operator left-associative (so `implies` and `iff` share the lowest level
+and keep their own associativity), both prefix operators above every infix, and every rule is mapped
+to its own operator by `map_infix` / `map_prefix`. -/
 theorem table_documented :
     (∀ o ∈ allBinOps, getOp (docRule o) = some (if docRightAssoc o then .inR else .inL, 10 + 10 * docLevel o)
         ∧ infixArm (docRule o) = some o)
     ∧ (∀ u ∈ [UnOp.neg, UnOp.not], getOp (docUnRule u) = some (.pre, 80) ∧ prefixArm (docUnRule u) = some u) := by
   decide
+
+/-- **General round trip** (`printer_roundtrip`): ANY way of writing a tree down — any spelling of the
+operators (keywords or `&& || ! -> <->`), any superset of the needed parentheses, implicit products,
+calls — is read back as that tree. -/
+theorem printer_roundtrip {t : PExp} {ts : List Tok} {items : List Item} (h : Tk t ts items) :
+    parseToks ts = .ok t := parse_tk h
+
+/-- **`parse (render t) = t`** for every tree of the sub-language, with the minimal-parenthesis printer
+defined from the documented rules only, in both spellings. -/
+theorem parse_print (alias : Bool) (t : PExp) (h : WF t) : parseToks (render alias t) = .ok t := by
+  obtain ⟨items, hk, _⟩ := render_tk alias t h
+  exact parse_tk hk
+
+example : WF (.bin .sub (.var "x") (.bin .sub (.un .neg (.var "y")) (.bin .mul (.int 2) (.call "f" [.var "z", .num "2.5"])))) := by
+  simp [WF, WF.WFs]; decide
+
+/-- the symbolic aliases mean the same as the keywords -/
+theorem alias_eq (t : PExp) (h : WF t) : parseToks (render true t) = parseToks (render false t) := by
+  rw [parse_print true t h, parse_print false t h]
+
+/-- Two binary operators in a row group by the DOCUMENTED levels, for every pair of operators and every
+spelling: `a o1 b o2 c` is `(a o1 b) o2 c` when `o1` is on a tighter level, or on the same level and left
+associative; otherwise it is `a o1 (b o2 c)`. -/
+theorem operator_pair (o1 o2 : BinOp) (al1 al2 : Bool) {a b c : PExp} {ta tb tc : Tok}
+    (ha : Atom a ta) (hb : Atom b tb) (hc : Atom c tc) :
+    parseToks [ta, binTokS al1 o1, tb, binTokS al2 o2, tc] =
+      .ok (if docLevel o1 > docLevel o2 ∨ (docLevel o1 = docLevel o2 ∧ docRightAssoc o1 = false)
+           then .bin o2 (.bin o1 a b) c else .bin o1 a (.bin o2 b c)) := by
+  by_cases hg : docLevel o1 > docLevel o2 ∨ (docLevel o1 = docLevel o2 ∧ docRightAssoc o1 = false)
+  · simp only [hg, if_true]
+    have hnp : needParenLeft o2 (.bin o1 a b) = false := by
+      simp only [needParenLeft]; revert hg; cases o1 <;> cases o2 <;> decide
+    exact parse_tk (Tk.bin (Tk.bin (Tk.atom ha) (Tk.atom hb) (Or.inl rfl) (Or.inl rfl) (binTokS_mem al1 o1))
+      (Tk.atom hc) (Or.inr hnp) (Or.inl rfl) (binTokS_mem al2 o2))
+  · simp only [hg, if_false]
+    have hnp : needParenRight o1 (.bin o2 b c) = false := by
+      simp only [needParenRight]; revert hg; cases o1 <;> cases o2 <;> decide
+    exact parse_tk (Tk.bin (Tk.atom ha)
+      (Tk.bin (Tk.atom hb) (Tk.atom hc) (Or.inl rfl) (Or.inl rfl) (binTokS_mem al2 o2))
+      (Or.inl rfl) (Or.inr hnp) (binTokS_mem al1 o1))
+
+/-- `a -> b <-> c` is `a -> (b <-> c)` -/
+theorem implies_then_iff {a b c : PExp} {ta tb tc : Tok} (ha : Atom a ta) (hb : Atom b tb) (hc : Atom c tc) :
+    parseToks [ta, .arrow, tb, .darrow, tc] = .ok (.bin .implies a (.bin .iff b c)) := by
+  simpa [binTokS, docLevel, docRightAssoc] using operator_pair .implies .iff true true ha hb hc
+
+/-- `a <-> b -> c` is `(a <-> b) -> c` -/
+theorem iff_then_implies {a b c : PExp} {ta tb tc : Tok} (ha : Atom a ta) (hb : Atom b tb) (hc : Atom c tc) :
+    parseToks [ta, .darrow, tb, .arrow, tc] = .ok (.bin .implies (.bin .iff a b) c) := by
+  simpa [binTokS, docLevel, docRightAssoc] using operator_pair .iff .implies true true ha hb hc
+
+/-- `a -> b -> c` is `a -> (b -> c)`, `a - b - c` is `(a - b) - c` -/
+theorem implies_right_assoc {a b c : PExp} {ta tb tc : Tok} (ha : Atom a ta) (hb : Atom b tb) (hc : Atom c tc) :
+    parseToks [ta, .word "implies", tb, .word "implies", tc] = .ok (.bin .implies a (.bin .implies b c)) := by
+  simpa [binTokS, docLevel, docRightAssoc] using operator_pair .implies .implies false false ha hb hc
+theorem sub_left_assoc {a b c : PExp} {ta tb tc : Tok} (ha : Atom a ta) (hb : Atom b tb) (hc : Atom c tc) :
+    parseToks [ta, .minus, tb, .minus, tc] = .ok (.bin .sub (.bin .sub a b) c) := by
+  simpa [binTokS, docLevel, docRightAssoc] using operator_pair .sub .sub false false ha hb hc
+
+/-- a prefix operator binds tighter than every binary operator: `-a o b` is `(-a) o b`, `not a o b` is
+`(not a) o b` -/
+theorem unary_binds_tightest (u : UnOp) (o : BinOp) (alu alo : Bool) {a b : PExp} {ta tb : Tok}
+    (ha : Atom a ta) (hb : Atom b tb) :
+    parseToks [unTokS alu u, ta, binTokS alo o, tb] = .ok (.bin o (.un u a) b) :=
+  parse_tk (Tk.bin (Tk.un (Tk.atom ha) (unTokS_mem alu u)) (Tk.atom hb) (Or.inr rfl) (Or.inl rfl) (binTokS_mem alo o))
+
+/-- … also on the right of an operator: `a o -b` is `a o (-b)` -/
+theorem unary_right_operand (u : UnOp) (o : BinOp) (alu alo : Bool) {a b : PExp} {ta tb : Tok}
+    (ha : Atom a ta) (hb : Atom b tb) :
+    parseToks [ta, binTokS alo o, unTokS alu u, tb] = .ok (.bin o a (.un u b)) :=
+  parse_tk (Tk.bin (Tk.atom ha) (Tk.un (Tk.atom hb) (unTokS_mem alu u)) (Or.inl rfl) (Or.inr rfl) (binTokS_mem alo o))
+
+/-- **An implicit product is a single factor**: numbers / parenthesised groups written next to each
+other, optionally closed by a variable (`2x`, `2(x+1)`, `(a)(b)c`), are ONE operand of whatever operator
+stands before them — `a / 2x` is `a / (2*x)` — and of a prefix operator: `-2x` is `-(2*x)`. -/
+theorem implicit_product_single_factor (o : BinOp) (al : Bool) {a p : PExp} {ta : Tok} {ps vs : List PExp}
+    {ts vts : List Tok} (ha : Atom a ta) (hj : Juxt (p :: ps) ts) (hv : VarTail vs vts) (hn : 1 ≤ (ps ++ vs).length) :
+    parseToks (ta :: binTokS al o :: (ts ++ vts)) = .ok (.bin o a (mulAll p (ps ++ vs))) := by
+  have := parse_tk (Tk.bin (Tk.atom ha) (Tk.imul hj hv hn) (Or.inl rfl) (Or.inl rfl) (binTokS_mem al o))
+  simpa using this
+
+theorem implicit_product_under_prefix (u : UnOp) (al : Bool) {p : PExp} {ps vs : List PExp}
+    {ts vts : List Tok} (hj : Juxt (p :: ps) ts) (hv : VarTail vs vts) (hn : 1 ≤ (ps ++ vs).length) :
+    parseToks (unTokS al u :: (ts ++ vts)) = .ok (.un u (mulAll p (ps ++ vs))) :=
+  parse_tk (Tk.un (Tk.imul hj hv hn) (unTokS_mem al u))
+
+/-- `a / 2x = a / (2*x)` -/
+example : parseToks [.word "a", .slash, .int "2", .word "x"] = .ok (.bin .div (.var "a") (.bin .mul (.int 2) (.var "x"))) := by
+  have h2 : digitsToNat "2".toList ≤ i64Max := by decide
+  have := implicit_product_single_factor .div false (Atom.var "a" (by decide) (by decide))
+    (Juxt.int h2 Juxt.nil) (VarTail.var "x" (by decide)) (by simp)
+  simpa [binTokS, mulAll, digitsToNat] using this
+
+/-- `a / 2(x+1) = a / (2*(x+1))` and `a / (b)(c)d = a / ((b*c)*d)` -/
+example : parseToks [.word "a", .slash, .int "2", .lpar, .word "x", .plus, .int "1", .rpar] =
+    .ok (.bin .div (.var "a") (.bin .mul (.int 2) (.bin .add (.var "x") (.int 1)))) := by
+  have h2 : digitsToNat "2".toList ≤ i64Max := by decide
+  have h1 : digitsToNat "1".toList ≤ i64Max := by decide
+  have hx : Tk (.bin .add (.var "x") (.int (digitsToNat "1".toList))) ([.word "x"] ++ .plus :: [.int "1"]) _ :=
+    Tk.bin (Tk.atom (Atom.var "x" (by decide) (by decide))) (Tk.atom (Atom.int "1" h1)) (Or.inl rfl) (Or.inl rfl)
+      (by simp [binToks] : Tok.plus ∈ binToks .add)
+  have := implicit_product_single_factor .div false (Atom.var "a" (by decide) (by decide))
+    (Juxt.int h2 (Juxt.paren hx Juxt.nil)) VarTail.none (by simp)
+  simpa [binTokS, mulAll, digitsToNat] using this
+
+/-- Identifiers that merely start with a keyword stay identifiers — proved for every word that is not
+itself a keyword and does not start with `true`/`false` … -/
+theorem keyword_prefix_ident_partial (n : String) (hk : isKeyword n = false) (hb : boolPrefix n = none) :
+    parseToks [.word n] = .ok (.var n) :=
+  parse_tk (Tk.atom (Atom.var n hk hb))
+
+example : isKeyword "android" = false ∧ boolPrefix "android" = none := by decide
+example : ∀ n ∈ ["android", "order", "nothing", "iffy", "xor1", "implies2", "mins", "format", "inx", "ast", "lets", "And", "$and", "_or"],
+    isKeyword n = false ∧ boolPrefix n = none := by decide
+
+/-- … and FALSE for `true`/`false`: `truex` is not a keyword, yet it is not read as an identifier (the
+`boolean` rule has no boundary look-ahead and is tried before `variable`). -/
+theorem keyword_prefix_ident_counterexample :
+    isKeyword "truex" = false ∧ parseToks [.word "truex"] = .error .reject := by
+  refine ⟨by decide, ?_⟩
+  have hb : boolPrefix "truex" = some ("true", "x") := by decide
+  simp [parseToks, parseFuel, parseExp, collect, optUnary, unRule_word (w := "truex") (by decide), leaf, wordLeaf, hb,
+    collectLoop, binRule, ruleOfTok, Tok.opSpelling, Gen.binaryOpAlts, spells, Gen.opSpellings, prattParse,
+    expr, nud, loop, lbp]
 
 end Rooc.Props.C09
